@@ -58,7 +58,7 @@ func init() {
 }
 
 func runC14(c *core.Ctx) {
-	ks := []int{1, 2, 3, 5, 8}
+	ks := []int{1, 2, 3, 5, 8, 300}
 	if !c.Quick() {
 		ks = []int{1, 2, 3, 4, 5, 6, 7, 8, 9, 12, 16, 17, 33, 64}
 	}
@@ -67,6 +67,9 @@ func runC14(c *core.Ctx) {
 		for ch := 1; ch <= 8; ch++ {
 			for _, k := range ks {
 				for _, w := range windowClasses(k) {
+					if k >= 300 && (ch%3 != 2 || w[1]-w[0] < k/2) {
+						continue // the long parents: a few channel counts, the long windows only
+					}
 					n++
 					if !c.Mine(n) {
 						continue
